@@ -3,6 +3,7 @@
 -/
 import FocaModel.Proofs.SendAll
 import FocaModel.Proofs.SwapRemove
+import FocaModel.Proofs.Units
 namespace Foca.C12
 open Foca
 
@@ -134,5 +135,61 @@ theorem relay_for_ourselves_is_rejected (E : Env) (src dst : Id) (inc n : Nat) (
     reactToMessage E ⟨src, inc, dst, .indirectAck c.s.id n⟩ c = .err .indirectForOurselves c ∧
     reactToMessage E ⟨src, inc, dst, .forwardedAck c.s.id n⟩ c = .err .indirectForOurselves c := by
   simp [reactToMessage]
+
+/-- The record of a probed member that did not answer: still active and not known at a higher incarnation, it
+    becomes (or stays) Suspect and is reported active … -/
+theorem unanswered_member_becomes_suspect (k : Member) (inc : Nat) (hact : k.active = true) (hle : k.inc ≤ inc) :
+    (updateKnown k ⟨k.id, inc, .suspect⟩ (fun _ => true)).1.st = .suspect ∧
+    (updateKnown k ⟨k.id, inc, .suspect⟩ (fun _ => true)).2.activeNow = true := by
+  unfold updateKnown
+  cases hst : k.st with
+  | down => simp [Member.active, hst, Gen.isActive] at hact
+  | alive =>
+    have : decide (inc ≥ k.inc) = true := by simpa using hle
+    simp [Gen.canChange, hst, this, Member.active, Gen.isActive]
+  | suspect =>
+    by_cases hgt : inc > k.inc
+    · simp [Gen.canChange, hst, hgt, Member.active, Gen.isActive]
+    · simp [Gen.canChange, hst, hgt, Member.active, Gen.isActive]
+
+/-- … while one known at a higher incarnation (it refuted in the meantime) is left exactly as it is. -/
+theorem refuted_member_is_left_alone (k : Member) (inc : Nat) (hgt : k.inc > inc) :
+    (updateKnown k ⟨k.id, inc, .suspect⟩ (fun _ => true)).1 = k := by
+  unfold updateKnown
+  have h1 : ¬ inc > k.inc := by omega
+  have h2 : ¬ inc ≥ k.inc := by omega
+  cases hst : k.st <;> simp [Gen.canChange, hst, h1, h2]
+
+/-- **A failed round.** When the previous round ended without evidence (`take_failed` yields its target) and the
+    target is still listed and active after the Suspect update, the round leaves the member list as that update
+    makes it and schedules exactly one suspicion timeout — for that identity, that incarnation, the current
+    epoch, after `suspect_to_down_after` — whether or not the update changed anything (a member that was
+    already Suspect gets its timeout too). -/
+theorem failed_round_schedules_exactly_one_timeout (E : Env) (c : Ctx) (failed : Member) (ms' : List Member) (sm : Summary)
+    (hf : c.s.probe.takeFailed.1 = some failed)
+    (hex : applyExisting c.s.ms ⟨failed.id, failed.inc, .suspect⟩ (fun _ => true) = some (ms', sm))
+    (hact : sm.activeNow = true) :
+    ∃ c', probeSuspectFailed E c = .ok () c' ∧ c'.s.ms = ms' ∧
+      ∃ pre, c'.eff = c.eff ++ pre ++ [.timer c.s.cfg.s2d (.s2d failed.id failed.inc c.s.token)] ∧
+        ∀ e ∈ pre, isS2d e = false := by
+  unfold probeSuspectFailed
+  simp only [bind_run, getS_run, modS_run, hf]
+  obtain ⟨c3, hrun, hms, _, hcfg, htok, _, _, heff, _⟩ := applyExistingReport_some E
+    (c := { c with s := { c.s with probe := c.s.probe.takeFailed.2 } }) hex
+  simp only [hrun, hact, if_true, getS_run, emit_run]
+  refine ⟨_, rfl, hms, summaryEffects c.s.cfg.rda sm ⟨failed.id, failed.inc, .suspect⟩, ?_, ?_⟩
+  · rw [heff, hcfg, htok]
+  · intro e he
+    exact (summaryEffects_plain _ _ _ e he).1
+
+/-- … and no timeout at all when the target was forgotten in the meantime -/
+theorem failed_round_forgotten_member (E : Env) (c : Ctx) (failed : Member)
+    (hf : c.s.probe.takeFailed.1 = some failed)
+    (hex : applyExisting c.s.ms ⟨failed.id, failed.inc, .suspect⟩ (fun _ => true) = none) :
+    probeSuspectFailed E c = .ok () { c with s := { c.s with probe := c.s.probe.takeFailed.2 } } := by
+  unfold probeSuspectFailed
+  simp only [bind_run, getS_run, modS_run, hf]
+  rw [applyExistingReport_none E (c := { c with s := { c.s with probe := c.s.probe.takeFailed.2 } }) hex]
+  rfl
 
 end Foca.C12
